@@ -3,7 +3,7 @@ import json, itertools
 from lib.vcheck import *
 
 OPS = ["WA", "WB", "WC", "WD", "RM"]
-QUICK_FORMATS = "jpeg,png,gif,webp,wav,tiff,svg,mp3,jxl,mp4"
+QUICK_FORMATS = "jpeg,png,gif,webp,wav,avi,tiff,svg,mp3,jxl,mp4"
 BOUNDARY = [70, 71, 255, 256, 1000, 4095, 63998, 63999, 64000, 64001, 64002, 65535, 65536, 127999, 128000, 128001, 200000]
 
 
